@@ -30,7 +30,8 @@ source; anything that no longer has a recognisable shape raises Untranslatable):
       shutdown_complete_closes                         CT_SHUTDOWN_COMPLETE handling
       dc_listener_holds_weak                           the DataChannel listener never caches a strong PeerConnectionInner
   * shape checks without a boolean (Untranslatable when they fail): the steps of close_with_reason, Drop, close(),
-    the ICE Failed/Closed arms, the DTLS closed/failed and grace-expiry branches, and that spawn_transport_loops
+    the ICE Failed/Closed arms, the DTLS closed/failed and grace-expiry branches, that close_with_reason drains and
+    stops every secondary (non-BUNDLE) media / ICE transport map, and that spawn_transport_loops
     builds its LoopsGuard outside the returned future (dropping that future un-polled must still abort the loops)
 """
 import re
@@ -227,6 +228,15 @@ def gen_lifecycle():
                       (r"self\.ice_transport\.stop\(\);", "ice stop")):
         if not re.search(pat, close_n):
             raise Untranslatable("close_with_reason: step `%s` not found" % what)
+    # every map of secondary (non-BUNDLE) transports is drained, and every ICE transport taken out of it is stopped
+    # (IceTransport has no Drop: one that is merely dropped from the map keeps its runner task and sockets)
+    if not re.search(r"let extra_transports = self \.rtp_media_transports \.lock\(\) \.drain\(\) \.map\(\|\(_, transport\)\| transport\) \.collect::<Vec<_>>\(\); "
+                     r"for transport in extra_transports \{ let count = transport\.clear_listeners\(\);", close_n):
+        raise Untranslatable("close_with_reason: the secondary RTP transports are no longer all drained and cleared")
+    if not re.search(r"self\.ice_transport\.stop\(\); let extra_ice = self \.rtp_media_ice_transports \.lock\(\) \.drain\(\) \.map\(\|\(_, transport\)\| transport\) \.collect::<Vec<_>>\(\); "
+                     r"for transport in extra_ice \{ transport\.stop\(\); \}", close_n):
+        raise Untranslatable("close_with_reason: not every secondary ICE transport is drained and stopped any more")
+    m.manifest.append({"item": "close_with_reason drains and stops every secondary media / ICE transport", "file": PC})
     flag(m, "close_closes_channels",
          re.search(r"let channels = self\.data_channels\.lock\(\); for weak_dc in channels\.iter\(\) \{ if let Some\(dc\) = weak_dc\.upgrade\(\) \{ "
                    r"let old_state = dc \.state \.swap\(DataChannelState::Closed as usize, Ordering::SeqCst\); "
